@@ -125,8 +125,8 @@ class ScriptedRandom:
         if weights is not None or cum_weights is not None:
             raise NotImplementedError('scripted random.choices with weights')
         n = len(population)
-        if not n:
-            raise IndexError('Cannot choose from an empty sequence')
+        if not n and k > 0:           # like the real one: only an actual pick from nothing fails
+            raise IndexError('list index out of range')
         return [population[self._draw(n)] for _ in range(k)]
 
     def sample(self, population, k, *, counts=None):
